@@ -31,7 +31,55 @@ pub enum Case {
     /// in the chunks given by `cuts`; `lockstep` = the next chunk is typed only after the
     /// terminal object has read everything typed so far, otherwise a thread types the chunks
     /// `pause_us` apart while the terminal object is polling
-    Tty { pad: u16, input: Vec<u8>, cuts: Vec<u16>, lockstep: bool, pause_us: u16 },
+    ///
+    /// `early` = part of the typed stream arrives while `SystemTerminal::open` is still probing
+    /// the terminal (see `Early`)
+    Tty {
+        pad: u16,
+        input: Vec<u8>,
+        cuts: Vec<u16>,
+        lockstep: bool,
+        pause_us: u16,
+        #[serde(default)]
+        early: Option<Early>,
+    },
+}
+
+/// Input that reaches the tty while the terminal object is being constructed: the typed stream
+/// is `head` + pad + input, and a non-empty prefix of it that does not yet complete any event
+/// (a strict prefix of one sequence: `ESC`, `ESC [ 1 ;`, the first bytes of a multi-byte
+/// character, an unterminated OSC or paste ...) is sent by the emulator right behind its reply to the
+/// DA1 request that ends the library's capability probing; the rest is typed after `open()`
+/// has returned.
+#[derive(Clone, Debug, Serialize, Deserialize)]
+pub struct Early {
+    /// one sequence (recognised, malformed or bare introducer) put in front of the typed stream
+    head: Vec<u8>,
+    /// which part of the longest event-free prefix is sent during open (fraction of its length)
+    cut: u16,
+    /// in the same write as the DA1 reply; otherwise in a write of its own directly after it
+    same_write: bool,
+}
+
+/// the most that is sent during open (stays well below the pty's input buffer, so that the
+/// peer's single write cannot block or come up short)
+const EARLY_MAX: usize = 512;
+
+/// Length of the longest prefix of `bytes` on which the event decoder emits nothing (every byte
+/// of it is still pending inside the decoder): no complete event can fall into the probing
+/// phase when such a prefix is delivered there.
+fn event_free_prefix(bytes: &[u8]) -> Result<usize, Fail> {
+    let mut t = EventTokenizer::new();
+    let mut out = Vec::new();
+    let mut n = 0usize;
+    for b in bytes.iter().take(EARLY_MAX) {
+        t.feed(std::slice::from_ref(b), &mut out).map_err(|e| Fail::new("event/io-error", format!("{e:?}")))?;
+        if !out.is_empty() || t.pending() != n + 1 {
+            break;
+        }
+        n += 1;
+    }
+    Ok(n)
 }
 
 const ALPHA: &[u8] = b"abc\x1b";
@@ -570,12 +618,30 @@ fn tty_inconclusive(msg: impl Into<String>) -> Fail {
 /// be the events a fresh decoder yields for the same bytes in a single buffer: nothing lost,
 /// duplicated or reordered by the 1024-byte read buffer, by reads that end inside a sequence,
 /// or by the event queue.
-fn check_tty(pad: u16, input: &[u8], cuts: &[u16], lockstep: bool, pause_us: u16) -> Outcome {
+///
+/// With `early`: a prefix of the typed stream that completes no event arrives during `open()`,
+/// behind the emulator's DA1 reply.  The reply is a complete sequence, so the decoder is back in
+/// its start state behind it, and the bytes of the prefix are only the beginning of a sequence:
+/// where the stream is cut into reads (here: into the reads done while probing and the reads done
+/// by later polls) must not matter, the events after `open()` are those of one decoder over
+/// prefix + rest.
+fn check_tty(pad: u16, input: &[u8], cuts: &[u16], lockstep: bool, pause_us: u16, early: Option<&Early>) -> Outcome {
     use crate::pty::{Peer, Pty};
+    use std::sync::atomic::Ordering;
     use std::time::{Duration, Instant};
     use surf_n_term::{SystemTerminal, Terminal};
-    let mut bytes: Vec<u8> = (0..pad as usize).map(|i| b'a' + (i % 26) as u8).collect();
+    let mut bytes: Vec<u8> = early.map(|e| e.head.clone()).unwrap_or_default();
+    let head_len = bytes.len();
+    bytes.extend((0..pad as usize).map(|i| b'a' + (i % 26) as u8));
     bytes.extend_from_slice(input);
+    // how much of the stream arrives during open: 1..=longest event-free prefix
+    let early_len = match early {
+        Some(e) => {
+            let lmax = event_free_prefix(&bytes)?;
+            if lmax == 0 { 0 } else { 1 + ((e.cut as usize * lmax) >> 16) }
+        }
+        None => 0,
+    };
     // expected: the public decoder over one buffer
     let expected = drive_public(surf_n_term::decoder::TTYEventDecoder::new(), &[&bytes[..]], "tty")?
         .unwrap_or_default();
@@ -583,19 +649,69 @@ fn check_tty(pad: u16, input: &[u8], cuts: &[u16], lockstep: bool, pause_us: u16
     pos.push(bytes.len());
     pos.sort();
     let mut chunks: Vec<Vec<u8>> = Vec::new();
-    let mut last = 0usize;
+    let mut last = early_len;
     for p in pos {
         if p > last {
             chunks.push(bytes[last..p].to_vec());
             last = p;
         }
     }
+    if lockstep {
+        // in lockstep the typing thread is the reading thread: a chunk that does not fit into
+        // the pty's buffers (4 KiB line discipline + 8 KiB port) would block the write for ever;
+        // longer chunks are typed in pieces, each after the previous one has been read
+        chunks = chunks.iter().flat_map(|c| c.chunks(3072).map(|x| x.to_vec())).collect();
+    }
     let pty = Pty::open().map_err(|e| tty_inconclusive(format!("cannot open pty: {e}")))?;
     let peer = Peer::spawn(&pty);
+    if let Some(e) = early.filter(|_| early_len > 0) {
+        let slot = if e.same_write { &peer.state.reply_suffix } else { &peer.state.reply_followup };
+        *slot.lock().unwrap() = bytes[..early_len].to_vec();
+    }
+    let e_same_write = early.is_some_and(|e| e.same_write);
+    let open_started = Instant::now();
     let mut term = SystemTerminal::open(&pty.slave_path)
         .map_err(|e| Fail::new("tty/open-error", format!("SystemTerminal::open failed: {e:?}")))?;
-    while let Ok(Some(_)) = term.poll(Some(Duration::ZERO)) {}
-    let recv0 = term.stats().recv;
+    let mut early_read_during_open = false;
+    let mut slow_open = false;
+    let recv0 = if early_len > 0 {
+        // the peer writes nothing but its 7-byte DA1 replies and the early bytes, the reply
+        // first: if open() has read at least the reply (stats().recv, checked below), the reply
+        // was decoded inside open() and its event consumed there (by the probing loop, or by the
+        // drain behind it when the loop's 1 s wait had run out), and the write that carried it —
+        // with the early bytes, in same-write mode — precedes anything typed from now on.
+        // Otherwise (probing gave up before the reply arrived) the session is inconclusive.
+        slow_open = open_started.elapsed() >= Duration::from_millis(900);
+        // a write of its own follows the reply at once: nothing is typed before the peer has
+        // completed it (order of the typed stream)
+        if !e_same_write {
+            let deadline = Instant::now() + Duration::from_secs(2);
+            while peer.state.followup_written.load(Ordering::SeqCst) == 0 {
+                if Instant::now() > deadline {
+                    return Err(tty_inconclusive("the peer did not complete the write that follows its DA1 reply within 2 s"));
+                }
+                std::thread::sleep(Duration::from_micros(50));
+            }
+        }
+        if !peer.state.reply_suffix.lock().unwrap().is_empty() || !peer.state.reply_followup.lock().unwrap().is_empty() {
+            return Err(tty_inconclusive(format!(
+                "the early bytes were not sent (open took {:?}, DA1 answered {} times)",
+                open_started.elapsed(),
+                peer.state.da1_answered.load(Ordering::SeqCst)
+            )));
+        }
+        // all the peer has written so far: its 7-byte DA1 replies and the early bytes; nothing
+        // is thrown away here, every event from now on takes part in the comparison
+        let replies = 7 * peer.state.da1_answered.load(Ordering::SeqCst);
+        match term.stats().recv.checked_sub(replies) {
+            Some(n) if replies > 0 && n <= early_len => early_read_during_open = n == early_len,
+            other => return Err(tty_inconclusive(format!("cannot tell replies from typed bytes: recv={} replies={replies} early={early_len} ({other:?})", term.stats().recv))),
+        }
+        replies
+    } else {
+        while let Ok(Some(_)) = term.poll(Some(Duration::ZERO)) {}
+        term.stats().recv
+    };
     let master_fd = {
         use std::os::fd::AsRawFd;
         pty.master.as_raw_fd()
@@ -628,7 +744,7 @@ fn check_tty(pad: u16, input: &[u8], cuts: &[u16], lockstep: bool, pause_us: u16
         }))
     };
     let mut next = 0usize;
-    let mut typed = 0usize;
+    let mut typed = early_len;
     loop {
         let got = term.stats().recv - recv0;
         if lockstep && got == typed && next < chunks.len() {
@@ -674,10 +790,23 @@ fn check_tty(pad: u16, input: &[u8], cuts: &[u16], lockstep: bool, pause_us: u16
     let exp: Vec<&String> = expected.iter().filter(keep).collect();
     if obs != exp {
         let i = (0..obs.len().min(exp.len())).find(|&i| obs[i] != exp[i]).unwrap_or(obs.len().min(exp.len()));
+        let (sig, how) = if early_len > 0 {
+            (
+                "tty/input-during-open/events-differ-from-single-buffer-decode",
+                format!(
+                    "the first {early_len} (\"{}\", completes no event) sent during open() {} the DA1 reply ({}), the rest",
+                    esc(&bytes[..early_len]),
+                    if early.is_some_and(|e| e.same_write) { "in the same write as" } else { "in a write of its own right after" },
+                    if early_read_during_open { "read before open() returned" } else { "not yet fully read when open() returned" }
+                ),
+            )
+        } else {
+            ("tty/events-differ-from-single-buffer-decode", "all".to_string())
+        };
         return Err(Fail::new(
-            "tty/events-differ-from-single-buffer-decode",
+            sig,
             format!(
-                "{} bytes typed in {} chunks ({}): event #{i} is {:?} through the terminal object but {:?} from the decoder on one buffer ({} vs {} events); input tail {:?}",
+                "{} bytes typed, {how} in {} chunks ({}): event #{i} is {:?} through the terminal object but {:?} from the decoder on one buffer ({} vs {} events); input tail {:?}",
                 total,
                 chunks.len(),
                 if lockstep { "lockstep" } else { "free running" },
@@ -685,13 +814,20 @@ fn check_tty(pad: u16, input: &[u8], cuts: &[u16], lockstep: bool, pause_us: u16
                 exp.get(i),
                 obs.len(),
                 exp.len(),
-                esc(&bytes[pad as usize..])
+                esc(&bytes[(head_len + pad as usize).min(bytes.len())..])
             ),
         ));
     }
     let crosses = total > 1024;
+    let same_write = early.is_some_and(|e| e.same_write);
     Ok(Pass::new(reads_inside && exp.len() > pad as usize)
         .label("tty")
+        .label_if(early_len > 0, "tty-input-during-open")
+        .label_if(early_len > 0 && same_write, "tty-input-during-open-same-write-as-reply")
+        .label_if(early_len > 0 && !same_write, "tty-input-during-open-own-write")
+        .label_if(early_read_during_open, "tty-input-during-open-read-before-open-returned")
+        .label_if(slow_open, "tty-input-during-open-open-took-0.9s-or-more")
+        .label_if(early.is_some() && early_len == 0, "tty-input-during-open-skipped-first-byte-completes-event")
         .label_if(lockstep, "tty-lockstep")
         .label_if(!lockstep, "tty-free-running")
         .label_if(crosses, "tty-more-than-one-read-buffer")
@@ -739,8 +875,13 @@ impl Property for C03 {
     fn strategy(&self, tier: Tier) -> BoxedStrategy<Case> {
         let max_raw = tier.pick(48usize, 400usize);
         let parts = || proptest::collection::vec(proptest::collection::vec(any::<u16>(), 0..6), 3..=3);
-        let production = (hostile::input(max_raw), parts())
-            .prop_map(|(input, parts)| Case::Production { input, parts });
+        // inputs are cut off at 16 KiB: the leftmost-longest validation re-walks the automaton
+        // from every token start, which is quadratic on a mutated 100 KB paste (sequences longer
+        // than 64 KiB under read schedules are C04's business)
+        let production = (hostile::input(max_raw), parts()).prop_map(|(mut input, parts)| {
+            input.truncate(16 * 1024);
+            Case::Production { input, parts }
+        });
         let core = (
             proptest::collection::vec(re_strategy(ALPHA, 3, false), 1..=6),
             any::<bool>(),
@@ -765,8 +906,30 @@ impl Property for C03 {
             });
         // pad so that the interesting bytes straddle the 1024-byte read buffer of the loop
         let pad = prop_oneof![3 => Just(0u16), 2 => 0u16..40, 3 => 990u16..1024, 1 => 2010u16..2048];
-        let tty = (pad, hostile::input(max_raw.min(120)), proptest::collection::vec(any::<u16>(), 0..8), any::<bool>(), prop_oneof![Just(0u16), 0u16..400])
-            .prop_map(|(pad, input, cuts, lockstep, pause_us)| Case::Tty { pad, input, cuts, lockstep, pause_us });
+        let tty = (pad, hostile::input(max_raw.min(120)).prop_map(|mut v| { v.truncate(16 * 1024); v }), proptest::collection::vec(any::<u16>(), 0..8), any::<bool>(), prop_oneof![Just(0u16), 0u16..400]);
+        // the head of the stream for sessions with input during open: one sequence of any kind,
+        // so that the stream usually begins with a multi-byte sequence to be cut
+        let keys: Vec<Vec<u8>> = [
+            &b"\x1b[A"[..], b"\x1b[B", b"\x1b[H", b"\x1bOP", b"\x1bOA", b"\x1b[1;5C", b"\x1b[1;3A", b"\x1b[15~", b"\x1b[3;2~", b"\x1b[Z",
+            b"\x1bx", b"\x1b\x7f", b"\x1b\x1b[A", b"\x1b[<0;10;5M", b"\x1b[97;5u", b"\x1b[I", "\u{e9}".as_bytes(), "\u{20ac}".as_bytes(), "\u{1F431}".as_bytes(),
+        ]
+        .iter()
+        .map(|k| k.to_vec())
+        .collect();
+        let head = prop_oneof![
+            4 => hostile::skeleton(),
+            3 => proptest::sample::select(keys),
+            1 => hostile::wellformed(),
+            1 => proptest::sample::select(hostile::golden()),
+            1 => Just(Vec::new()),
+        ];
+        let early = (head, any::<u16>(), prop_oneof![2 => Just(true), 1 => Just(false)])
+            .prop_map(|(mut head, cut, same_write)| {
+                head.truncate(4 * 1024);
+                Early { head, cut, same_write }
+            });
+        let tty = (tty, prop_oneof![60 => Just(None), 40 => early.prop_map(Some)])
+            .prop_map(|((pad, input, cuts, lockstep, pause_us), early)| Case::Tty { pad, input, cuts, lockstep, pause_us, early });
         prop_oneof![60 => production, 40 => core, 3 => tty].boxed()
     }
 
@@ -784,7 +947,7 @@ impl Property for C03 {
                     .label_if(es.tokens > es.recognised, "event-raw")
                     .label_if(input.len() <= 48, "all-single-cuts"))
             }
-            Case::Tty { pad, input, cuts, lockstep, pause_us } => check_tty(*pad, input, cuts, *lockstep, *pause_us),
+            Case::Tty { pad, input, cuts, lockstep, pause_us, early } => check_tty(*pad, input, cuts, *lockstep, *pause_us, early.as_ref()),
             Case::Core { patterns, via_decode, input, parts } => {
                 let f = CoreFeeder { patterns, via_decode: *via_decode, alphabet: ALPHA.to_vec() };
                 let (st, cut) = check_feeder(&f, input, parts)?;
@@ -803,7 +966,7 @@ impl Property for C03 {
     }
 
     fn rule(&self) -> String {
-        "(a) 60%: hostile::input byte strings (raw, hostile skeletons, mutated/well-formed printer output; <=48 raw bytes quick, <=400 thorough) through the production event AND command decoders: single buffer vs byte-at-a-time vs 3 generated partitions (0-5 cuts, empty reads allowed) vs every single cut position when the input has <=48 bytes; the 3 generated partitions and every third single cut are in addition delivered through Decoder::decode by ONE reader that fails once or twice (WouldBlock, Interrupted in turn) before each chunk after the first, the failed call being repeated on the same decoder (items must equal the single-buffer items: sig <decoder>/retried-read-error-changes-result/public-api); spans and items must be identical, then the single-buffer tokenisation is validated against leftmost-longest using the production DFA's per-prefix acceptance trace. (b) 40%: 1-6 patterns from regular-expression ASTs (depth<=3, no empty-language leaves) over {a,b,c,ESC} built through the public NFA API and run through the private tokeniser (hook, both tag paths) on inputs <=24 bytes assembled from random letters and random walks through the patterns, same partitions, validated against the derivative matcher. (c) ~3%: the read loop of the terminal object: 0-2047 printable pad bytes (so that the rest straddles the loop's 1024-byte read buffer) + a hostile::input string typed into a pseudo-terminal in 1-9 chunks, in lockstep with the reader or free running with 0-400 us pauses; the events returned by Terminal::poll must equal the events of a fresh TTYEventDecoder over the same bytes in one buffer, and stats().recv must equal the bytes typed (non-trivial there = more than one read and at least one event beyond the pad). non-trivial (a, b) = some token was taken from a non-terminal candidate (a longer match was attempted and failed, bytes rescheduled) and some cut falls strictly inside an item".into()
+        "(a) 60%: hostile::input byte strings (raw, hostile skeletons, mutated/well-formed printer output; <=48 raw bytes quick, <=400 thorough) through the production event AND command decoders: single buffer vs byte-at-a-time vs 3 generated partitions (0-5 cuts, empty reads allowed) vs every single cut position when the input has <=48 bytes; the 3 generated partitions and every third single cut are in addition delivered through Decoder::decode by ONE reader that fails once or twice (WouldBlock, Interrupted in turn) before each chunk after the first, the failed call being repeated on the same decoder (items must equal the single-buffer items: sig <decoder>/retried-read-error-changes-result/public-api); spans and items must be identical, then the single-buffer tokenisation is validated against leftmost-longest using the production DFA's per-prefix acceptance trace. (b) 40%: 1-6 patterns from regular-expression ASTs (depth<=3, no empty-language leaves) over {a,b,c,ESC} built through the public NFA API and run through the private tokeniser (hook, both tag paths) on inputs <=24 bytes assembled from random letters and random walks through the patterns, same partitions, validated against the derivative matcher. (c) ~3%: the read loop of the terminal object: 0-2047 printable pad bytes (so that the rest straddles the loop's 1024-byte read buffer) + a hostile::input string typed into a pseudo-terminal in 1-9 chunks, in lockstep with the reader or free running with 0-400 us pauses; the events returned by Terminal::poll must equal the events of a fresh TTYEventDecoder over the same bytes in one buffer, and stats().recv must equal the bytes typed (non-trivial there = more than one read and at least one event beyond the pad). 40% of the (c) sessions have INPUT DURING OPEN: one more sequence (hostile skeleton, common key / mouse / multi-byte character, well-formed output, golden string, or nothing) is put in front of the typed stream, and a generated non-empty part (<=512 bytes) of the longest prefix of the stream on which the event decoder emits nothing (a strict prefix of one sequence: ESC, ESC [ 1 ;, first bytes of a multi-byte character, unterminated OSC/paste ...) is sent by the scripted emulator during SystemTerminal::open, right behind its reply to the DA1 request that ends capability probing — in the same write as the reply (2/3) or in a write of its own directly after it (1/3) — the rest is typed after open() has returned, as before; every event returned by Terminal::poll after open() must equal the events of one decoder over prefix + rest (sig tty/input-during-open/events-differ-from-single-buffer-decode); labels tty-input-during-open*, '...-read-before-open-returned' = the early bytes had been consumed by the probing phase's reads. non-trivial (a, b) = some token was taken from a non-terminal candidate (a longer match was attempted and failed, bytes rescheduled) and some cut falls strictly inside an item".into()
     }
 
     fn assumptions(&self) -> Vec<String> {
@@ -813,6 +976,7 @@ impl Property for C03 {
             "for (a) the set of recognised sequences is the production automaton itself (its language is C04/C15's subject)".into(),
             "at the end of input a viable, extendable prefix stays pending and produces no token".into(),
             "a read that fails with ErrorKind::WouldBlock or ErrorKind::Interrupted is a read that delivered nothing (io::BufRead / io::Read contract: nothing was consumed, the operation may be retried): a caller that repeats the decode call on the same decoder and reader must get the items of the uncut stream; what the failed call itself returns is not checked".into(),
+            "(c, input during open) the terminal object's tty stream is the emulator's replies followed by the typed bytes; the DA1 reply is a complete sequence after which the decoder is in its start state, so the events of replies + typed are the probing phase's events followed by the events of the typed bytes alone. Events COMPLETED while open() is probing are consumed or discarded by the probing phase (unix.rs: unexpected events are logged and dropped, the queue is drained before open returns), so nothing is demanded about them: only a prefix that completes no event (checked with the event tokeniser, byte by byte, nothing emitted and every byte pending) is sent early. Whether that prefix is read by the probing phase or by a later poll is up to the scheduler; the expected events are the same in both cases. A session whose early bytes were not sent, or in which open() returned without having read the DA1 reply (the probe's 1 s wait expired: stats().recv minus 7 bytes per DA1 reply written by the peer is not within 0..=early bytes) is inconclusive; elapsed time decides nothing".into(),
             "(c) Resize events (the library's reaction to a size report) and kitty image responses (consumed by an image handler) are left out of the comparison; a session whose typed bytes are not read within 8 s is inconclusive".into(),
         ]
     }
